@@ -127,6 +127,11 @@ func checkC07(c *Ctx, p *Prog, r *Result) {
 		}
 	}
 
+	sqliteExpiryRules(p, r, rs, "C07")
+}
+
+// sqliteExpiryRules: the sqlite store enforces the registration expiry (shared by C07 and C18).
+func sqliteExpiryRules(p *Prog, r *Result, rs *RuleSet, prefix string) {
 	// sqlite backend: expiry enforced, units agree
 	rv := p.ByName["fdo/sqlite.DB.RVBlob"]
 	set := p.ByName["fdo/sqlite.DB.SetRVBlob"]
@@ -136,12 +141,12 @@ func checkC07(c *Ctx, p *Prog, r *Result) {
 	}
 	fs := NewFlow(p, rs, []*ssa.Function{rv}, nil)
 	r.useFlow(fs)
-	r.rule("C07.sqlite-expiry", "(*sqlite.DB).RVBlob returns a blob only after the row was read and time.Now().After(expiry from that row) was false")
-	r.floor("C07.sqlite-expiry", 1)
-	r.requireAtReturns(fs, "C07.sqlite-expiry", rv, 2, []Atom{"row-read", "not-expired"})
+	r.rule(prefix+".sqlite-expiry", "(*sqlite.DB).RVBlob returns a blob only after the row was read and time.Now().After(expiry from that row) was false")
+	r.floor(prefix+".sqlite-expiry", 1)
+	r.requireAtReturns(fs, prefix+".sqlite-expiry", rv, 2, []Atom{"row-read", "not-expired"})
 
-	r.rule("C07.sqlite-expiry-units", "the exp column is written with Time.Unix*() and read back with the matching time.Unix*() constructor")
-	r.floor("C07.sqlite-expiry-units", 1)
+	r.rule(prefix+".sqlite-expiry-units", "the exp column is written with Time.Unix*() and read back with the matching time.Unix*() constructor")
+	r.floor(prefix+".sqlite-expiry-units", 1)
 	writer := ""
 	for _, b := range set.Blocks {
 		for _, in := range b.Instrs {
@@ -170,6 +175,6 @@ func checkC07(c *Ctx, p *Prog, r *Result) {
 		}
 	}
 	pair := map[string]string{"time.Time.Unix": "time.Unix", "time.Time.UnixMilli": "time.UnixMilli", "time.Time.UnixMicro": "time.UnixMicro"}
-	r.table(p, "C07.sqlite-expiry-units", "fdo/sqlite.DB.SetRVBlob exp <-> fdo/sqlite.DB.RVBlob", p.Pos(set.Pos()), writer != "" && pair[writer] == reader,
+	r.table(p, prefix+".sqlite-expiry-units", "fdo/sqlite.DB.SetRVBlob exp <-> fdo/sqlite.DB.RVBlob", p.Pos(set.Pos()), writer != "" && pair[writer] == reader,
 		"writer conversion "+writer+", reader conversion "+reader)
 }
